@@ -649,15 +649,28 @@ def _um(cps):
 
 
 def _ent_lines(ent):
-    lines = [[_m(k), _m(v), False] for k, v in ent.items()]
+    """keyvalue lines [key, value]; output lines [exp_out, target, exp_in, params, '%g' delay, str(times), comma_sep]
+    (number formatting is vmf.py's and not modelled)"""
+    lines = [[_m(k), _m(v)] for k, v in ent.items()]
     for o in ent.outputs:
-        from srctools.tokenizer import escape_text
-        t = o.as_keyvalue()                      # '"K" "V"\n' — formatting of the fields is vmf.py's (not modelled)
-        k = escape_text(o.exp_out())
-        assert t.startswith('"' + k + '" "') and t.endswith('"\n')
-        v = t[len(k) + 4:-2]
-        lines.append([_m(k), _m(v), True])
+        lines.append([_m(o.exp_out()), _m(o.target), _m(o.exp_in()), _m(o.params), _m(f'{o.delay:g}'), _m(str(o.times)), bool(o.comma_sep)])
     return lines
+
+
+def _impl_outs(ent):
+    return [[_m(o.target), _m(o.exp_in()), _m(o.params), float(o.delay), int(o.times), bool(o.comma_sep)] for o in ent.outputs]
+
+
+def _model_outs(e):
+    out = []
+    for l in e:
+        if l[2] != 0 and l[3] is not None:
+            t, i, p, d, n, c = l[3]
+            try:
+                out.append([t, i, p, float(_um(d)), int(_um(n)), c])
+            except ValueError:
+                out.append('unparsable')
+    return out
 
 
 _ENT_PIECES = ['{', '}', '\n', ' ', '"k" "v"', '"classname" "worldspawn"', '"classname" "info_x"', '\x00', '"a" "1,2,3"',
@@ -680,7 +693,7 @@ def _corr_ents(ctx, drv):
         meta.append(('write', res['case'], {'r': _m(text)}))
         want = [[[_m(k), _m(v)] for k, v in e.items()] for e in ents]
         reqs.append({'op': 'ent_read', 's': _m(text)})
-        meta.append(('read', res['case'], (want, [len(e.outputs) for e in ents])))
+        meta.append(('read', res['case'], (want, [len(e.outputs) for e in ents], [_impl_outs(e) for e in ents])))
         ctx.count('ents:lump')
     # the reader's control flow on arbitrary (mostly malformed) lump texts
     tmp = ctx._c11_tmp
@@ -696,7 +709,7 @@ def _corr_ents(ctx, drv):
             vmf = dummy._lmp_read_ents(text.encode('ascii', 'surrogateescape'))
             ents = [vmf.spawn] + list(vmf.entities)
             # an entity lump without any "{" leaves the default worldspawn: the model returns no entity at all
-            impl = ([[[_m(k), _m(v)] for k, v in e.items()] for e in ents], [len(e.outputs) for e in ents])
+            impl = ([[[_m(k), _m(v)] for k, v in e.items()] for e in ents], [len(e.outputs) for e in ents], None)
         except Exception as e:
             impl = 'error'
         reqs.append({'op': 'ent_read', 's': _m(text)})
@@ -716,7 +729,7 @@ def _corr_ents(ctx, drv):
         if 'err' in rep:
             ctx.disagree(case, str(want)[:300], rep, '_lmp_read_ents / model entRead')
             continue
-        kvs, nouts = want
+        kvs, nouts, outs = want
         m_ents = rep['ents']
         m_kvs = [[[l[0], l[1]] for l in e if l[2] == 0] for e in m_ents]
         m_out = [sum(1 for l in e if l[2] != 0) for e in m_ents]
@@ -732,6 +745,11 @@ def _corr_ents(ctx, drv):
         m_kvs = [merged(e) for e in m_kvs]
         if m_kvs != kvs or (not amb and m_out != nouts):
             ctx.disagree(case, str((kvs, nouts))[:300], str((m_kvs, m_out))[:300], '_lmp_read_ents / model entRead')
+        elif outs is not None:
+            # the fields of every output (Output.parse split; instance: prefixes stay inside the name / input text)
+            mo = [_model_outs(e) for e in m_ents]
+            if mo != outs:
+                ctx.disagree(case, str(outs)[:300], str(mo)[:300], 'Output.parse / model parseOut')
 
 
 def correspond(ctx, drivers):
